@@ -240,9 +240,31 @@ def native(art, tier, stats, fnd):
             if r3.returncode != 0 or open(pre).read() != ref.stdout:
                 fnd.report("existing-file-not-replaced:" + state, "FILE existed (%s): after `sylt -o FILE` (exit %d) it holds %d bytes, `-o -` prints %d" % (state.replace("_", " "), r3.returncode, os.path.getsize(pre), len(ref.stdout)), {"main.sy": PROG_OK},
                            cmd="sylt -o - main.sy > want.lua; <prepare out.lua: %s>; sylt -o out.lua main.sy; cmp want.lua out.lua" % state)
+        # run mode (no -o): the interpreter is whatever `lua` is on PATH - stand-ins that succeed, fail, or do not exist
+        luadir = {}
+        for kind, body in (("succeeds", "#!/bin/sh\ncat > \"$LUA_CAPTURE\"\n"), ("reports_an_error", "#!/bin/sh\ncat > \"$LUA_CAPTURE\"\necho 'lua: boom' >&2\n"), ("absent", None)):
+            ld = os.path.join(d, "bin_" + kind); os.makedirs(ld); luadir[kind] = ld
+            if body is not None:
+                lp = os.path.join(ld, "lua"); open(lp, "w").write(body); os.chmod(lp, 0o755)
+        for kind in ("succeeds", "reports_an_error", "absent"):
+            for prog, accept in (("ok.sy", True), ("bad.sy", False)):
+                cap = os.path.join(d, "cap_%s_%s" % (kind, prog))
+                env = dict(os.environ, PATH=luadir[kind] + ":/bin:/usr/bin" if kind != "absent" else luadir[kind], LUA_CAPTURE=cap)
+                r = subprocess.run([sylt, prog], cwd=d, capture_output=True, text=True, timeout=60, env=env); n += 1
+                want_ok = accept and kind == "succeeds"
+                if (r.returncode == 0) != want_ok:
+                    fnd.report("exit-status:run-mode:%s:%s" % (kind, "accepted" if accept else "rejected"), "run mode, `lua` on PATH %s, program %s: exit status %d (%s)" % (kind.replace("_", " "), "accepted" if accept else "rejected", r.returncode, (r.stdout + r.stderr).replace("\n", " ")[-160:]),
+                               {"main.sy": PROG_OK if accept else PROG_BAD, "lua": "a stand-in `lua` that %s" % kind.replace("_", " ")}, cmd="PATH=<dir with that lua> sylt main.sy; echo $?")
+                elif accept and kind != "absent" and (not os.path.exists(cap) or open(cap).read() != run(["-o", "-", prog]).stdout):
+                    fnd.report("run-mode-program-differs", "run mode hands `lua` a program that differs from what `-o -` prints", {"main.sy": PROG_OK})
         # unwritable path
         r = run(["-o", os.path.join(d, "no_such_dir", "x.lua"), "ok.sy"]); n += 1
         if r.returncode == 0: fnd.report("exit-status:unwritable-output", "an unwritable FILE gives exit status 0", {"main.sy": PROG_OK})
+        elif "panicked" in r.stderr or r.returncode != 1: fnd.report("panic:unwritable-output", "`-o no_such_dir/x.lua`: the failure to create FILE is not reported as an error, the process panics (exit %d): %s" % (r.returncode, r.stderr.replace("\n", " ")[:200]), {"main.sy": PROG_OK}, cmd="sylt -o no_such_dir/x.lua main.sy; echo $?")
+        for bad_out in (".", os.path.join(d, "ok.sy", "x.lua")):          # FILE is a directory / lies below a regular file
+            r2 = run(["-o", bad_out, "ok.sy"]); n += 1
+            if r2.returncode == 0: fnd.report("exit-status:unwritable-output", "`-o %s` (not creatable) gives exit status 0" % os.path.basename(bad_out), {"main.sy": PROG_OK})
+            elif "panicked" in r2.stderr or r2.returncode != 1: fnd.report("panic:unwritable-output", "`-o %s`: the process panics (exit %d): %s" % (bad_out.replace(d, "<dir>"), r2.returncode, r2.stderr.replace("\n", " ")[:200]), {"main.sy": PROG_OK})
         # --require: module names chosen by z3
         x = z3.String("m"); s = z3.Solver(); s.set("timeout", 10000)
         seg = z3.Plus(z3.Union(z3.Range("a", "c"), z3.Re("_")))
